@@ -2,7 +2,7 @@
    Property theorems only. [dom] is the key domain of the DBI's order: all byte strings for byte order
    (C19_byte_order), well-formed 4- or 8-byte keys for MDB_INTEGERKEY (C19_integer_order), incl. key 0. *)
 From LS Require Import Base.Bytes Base.Res Header.Model Merge.Model Merge.Version Strategy.Model Strategy.Order
-  Strategy.Proofs Shadow.Model Shadow.Proofs.
+  Strategy.Proofs Shadow.Model Shadow.Proofs Instance.ShadowNoop.
 Open Scope N_scope.
 
 (* application -> shadow. For every key, after mainToShadow at time [now]:
@@ -41,6 +41,17 @@ Theorem C11_project : forall flags dom main shadow main',
     dget (dbi_cmp flags) main' k = match ver_of (dget (dbi_cmp flags) shadow k) with Some o => val o | None => [] end.
 Proof. exact shadow_to_main_spec. Qed.
 Print Assumptions C11_project.
+
+(* ... and as a whole: the application DBI after shadowToMain is EXACTLY the list of shadow entries with a
+   non-empty application value, in key order, whatever the application DBI held before — anything else that
+   was in it is gone, nothing else is added ("exactly the live entries of the merged state and nothing else") *)
+Theorem C11_project_exact : forall flags dom main shadow l,
+  ord_ok (dbi_cmp flags) dom ->
+  sorted (dbi_cmp flags) dom (keys shadow) -> Forall dom (keys main) ->
+  read_hdr shadow = Ok l ->
+  shadow_to_main flags main shadow = Ok (proj l).
+Proof. exact shadow_to_main_exact. Qed.
+Print Assumptions C11_project_exact.
 
 (* FULL statement of the projection clause ("every key present with the winning value") is FALSE of the code
    for live entries with an EMPTY value: they are dropped from the application DBI. Known finding F6. *)
